@@ -257,11 +257,14 @@ def verify_function(c, mutate=None, canary=False):
     for p, t in c.params.items():
         if p not in env:
             env[p] = api.mk(t, p, inv)       # ghost parameters
-    for g_ in ("nwrites", "nfiltered", "nstat", "rc_total", "nprinted"):
+    for g_ in ("nwrites", "nfiltered", "nstat", "rc_total", "nprinted", "ncalls"):
         env["$" + g_] = fresh("ghost." + g_, I)
         inv.append(env["$" + g_] >= 0)
     for g_ in ("w_writer", "w_rec1", "w_rec2", "tally", "tally_key"):
         env["$" + g_] = SeqV(fresh("ghost." + g_, AII), env["$nwrites"] if g_.startswith("w_") else fresh("ghost." + g_ + ".n", I), None)
+    for g_ in getattr(c, "ghost_seqs", ()):
+        # call log of the per-read driver loops: one entry per call, all of length $ncalls
+        env["$" + g_] = SeqV(fresh("ghost." + g_, AII), env["$ncalls"], None)
     inv.append(env["$tally"].n >= 0)
     env["$tally_key"] = SeqV(env["$tally_key"].arr, env["$tally"].n, None)
     if any(isinstance(x, (ast.Yield, ast.YieldFrom)) for x in ast.walk(fnode)):
